@@ -20,7 +20,7 @@ func init() {
 		Technique: "storage-layout analysis (key families of every Put/Delete/Find from canonical key terms): who-may-delete, writer/remover agreement, paired indices; must-facts for tombstone/existence guards; notification/effect equivalence at exits",
 		Explanation: "D1 the registry key is 'x'‖sha256(blob) and the stored value contains that blob; D2 the put path is reachable only with the tombstone 'd'‖id read as absent, delete writes 'd'‖id and no method (incl. the migration, shown by key-length facts) deletes family 'd'; " +
 			"D3 every family keyed by the container id that a put path can populate (x, o, eACL, nnsHasAlias, m) is deleted by Delete with the same id term on every effectful path (the alias: or was read empty), and the NNS deleteRecords call is made whenever the alias was non-empty; D4 the owner component of the 'o' key is produced by the same function of the blob at put time (submitted blob) and at delete/owner time (stored blob), 'x' and 'o' are written and deleted together; " +
-			"D5 Get, Owner, Alias, EACL, SetEACL, PutContainerSize reach a normal exit only with 'container exists' established; D6 PutSuccess/DeleteSuccess/SetEACLSuccess are emitted at one site each, outside loops, exactly on the paths that perform the state change, first argument = the container id, no other emitter. M: delete removes exactly when the owner lookup found an owner; list/containersOf scan the owner's ids for a non-empty owner and all ids for an empty one; the meta flag is written exactly when metaOnChain is set; loaders of the blob and the eACL. R6: the id-keyed families are deleted only from Delete (registry and owner index also by the layout migration). R8: arguments of a contract.Call that resolves to a method of this repository stand at the position of the parameter their name is meant for (defaultExpire/defaultTTL).",
+			"D5 Get, Owner, Alias, EACL, SetEACL, PutContainerSize reach a normal exit only with 'container exists' established; D6 PutSuccess/DeleteSuccess/SetEACLSuccess are emitted at one site each, outside loops, exactly on the paths that perform the state change, first argument = the container id, no other emitter. M: delete removes exactly when the owner lookup found an owner; list/containersOf scan the owner's ids for a non-empty owner and all ids for an empty one; the meta flag is written exactly when metaOnChain is set; loaders of the blob and the eACL. R6: the id-keyed families are deleted only from Delete (registry and owner index also by the layout migration). R8: arguments of a contract.Call that resolves to a method of this repository stand at the position of the parameter their name is meant for (defaultExpire/defaultTTL). R10: every normal return of SetEACL has stored the submission and announced it.",
 		NotCovered: "equality of the read API with a reference model over interleavings, NNS-side effects of alias cleanup, parsing of blobs with unusual version-field offsets (value level).",
 		Run:        runC04,
 	})
@@ -29,7 +29,7 @@ func init() {
 		Level:     "other",
 		Technique: "term agreement and must-facts at the fee transfer call site; loop-shape analysis (one call per Alphabet key, no early exit); dominance of the registry write by the loop exit",
 		Explanation: "D1 the amount argument of the transferX call in PutNamed equals Ext(netmap,config,ContainerFee) when name == \"\" and ContainerFee + ContainerAliasFee when name != \"\" (the same predicate controls the alias registration), and is loop-invariant; " +
-			"D2 the call sits in a range loop over the committee keys with no exit other than exhaustion, to = CreateStandardAccount(element), from = the script hash of the owner parsed from the blob, details = 0x10‖id; D3 the registry write is dominated by the loop exit, no exception-catching frame encloses the calls, and balance.TransferX cannot return normally from a refused transfer (C01). D4 every normal return of netmap.SetConfig has stored the submitted value (a fee of 0 included). D5 the debit/credit leg rules of balance's transfer helper (C01) are re-run: payer = payee included. R7: every integer-to-bytes encoder of package deploy returns the output of neo-go's VM integer codec (the contracts read the deployed settings back as VM integers).",
+			"D2 the call sits in a range loop over the committee keys with no exit other than exhaustion, to = CreateStandardAccount(element), from = the script hash of the owner parsed from the blob, details = 0x10‖id; D3 the registry write is dominated by the loop exit, no exception-catching frame encloses the calls, and balance.TransferX cannot return normally from a refused transfer (C01). D4 every normal return of netmap.SetConfig has stored the submitted value (a fee of 0 included). D5 the debit/credit leg rules of balance's transfer helper (C01) are re-run: payer = payee included. R7: every integer-to-bytes encoder of package deploy returns the output of neo-go's VM integer codec (the contracts read the deployed settings back as VM integers). R10: every normal return of PutNamed that charged the fee has stored the container.",
 		NotCovered: "numeric exactness at the balance boundary is delegated to C01 (Balance ≥ amount guard) and VM atomicity.",
 		Run:        runC05,
 	})
@@ -428,6 +428,10 @@ func runC04(cx *CheckCtx) {
 				cx.decide(a.Canon(put.In, id) == want || id == want, "id-derivation", "container.SetEACL/id", "the table is stored under its own container id field eACL[6+eACL[1] : 38+eACL[1]]", "the eACL table is stored under "+id.pretty()+", not under the container id encoded in it", put.Where(w))
 			}
 			cx.decide(a.tb.field(v, "Value") == paramTerm(a.tb, m, "eACL"), "id-derivation", "container.SetEACL/value", "stores the submitted table", "the stored eACL value is "+v.pretty(), put.Where(w))
+			// presence: "eACL returns what was set last" and "each successful setEACL emits exactly one": no
+			// normal return without the store and the notification (a table equal to the stored one still
+			// comes with a new signature, key and token)
+			cx.decide(executedAtEveryExit(a, put, notif), "notify", "container.SetEACL/always", "every normal return has stored the submission and announced it", "SetEACL can return normally without storing the submitted table (with its signature, key and token) or without SetEACLSuccess: eACL(id) keeps answering with an earlier submission", put.Where(w))
 		}
 	}
 	// ---- D5 getters
@@ -730,6 +734,15 @@ func runC05(cx *CheckCtx) {
 			}
 		}
 		flags, _ := fee.Args[2].IntConst()
+		// "in the same transaction that stores the container": a put that has charged the fee has stored the
+		// submission (blob with its signature, key and token) on every normal return
+		okStored := true
+		for _, ex := range a.Exits() {
+			if !a.holdsAt(ex.State, -a.eLit(fee), a.eLit(xPut)) {
+				okStored = false
+			}
+		}
+		cx.decide(okStored, "fee-atomic", "container.PutNamed/charged-stored", "every normal return that charged the fee has stored the container", "a put can charge the fee and return normally without storing the submitted container (a re-put that is taken for 'already there' is paid for and dropped)", xPut.Where(w))
 		cx.decide(!catching && flags == 15, "fee-atomic", "container.PutNamed/no-catch", "no exception-catching frame encloses the transfer and it is called with full flags", "a failing fee transfer would be swallowed or cannot write", fee.Where(w))
 		// count ordering: the 'x' write also precedes nothing that could fault silently; owner index checked in C04
 	}
